@@ -987,6 +987,12 @@ func main() {
 				effectOrder(repo, "stores/documentstore/document.go", "Get", "docGetOrder", [][2]string{
 					{"onestate", "docIndex.snapshot()"}, {"keys", "docIndex.Keys()"}, {"decode", "o.docOpts.Unmarshal("}})
 		}},
+		{"GenVerify", func() string {
+			return effectOrder(repo, "accesscontroller/verify.go", "VerifyEntryAuthor", "verifyAuthorOrder", [][2]string{
+				{"keymatch", "bytes.Equal(keyed.GetKey(), identity.PublicKey)"}, {"othertype", "identity.Type != \"orbitdb\""},
+				{"provider", "p.VerifyIdentity(identity)"}, {"lows", "canonicalSignature(signed.GetSig())"},
+				{"idlows", "canonicalSignature(sig)"}, {"idsig", "pubKey.Verify("}, {"keysig", "idKey.Verify("}})
+		}},
 		{"GenLogQuery", func() string {
 			return effectOrder(repo, "stores/eventlogstore/log.go", "read", "logQueryOrder", [][2]string{
 				{"bound", "e.GetHash().String() == hash.String()"}, {"operations", "operation.ParseOperation(e)"}, {"collect", "append(result, e)"}})
